@@ -52,6 +52,8 @@ fn main() {
         "opfee" => c33::run_opfee(seed, n, replay, &mut out),
         #[cfg(feature = "optimism")]
         "optx" => c33::run_optx(seed, n, replay, &mut out),
+        #[cfg(feature = "optimism")]
+        "ophist" => c33::run_ophist(seed, n, replay, &mut out),
         "C34j" => c34::run(seed, n, replay, &mut out),
         "C34tx" => c34tx::run(seed, n, replay, &mut out),
         "C28" | "inspwrap" => c28::run(seed, n, replay, &mut out),
